@@ -6,7 +6,8 @@
 // paged match-all queries over a covering time range.
 //
 //	(a) byte level (probe scenarios): before every flush a verif-tag hook in package writer
-//	    snapshots the open block's column buffers and dictionary state; after the flush the
+//	    snapshots the open block's column buffers and dictionary state; after the flush
+//	    (AllSeenColumnSizes is read again then) the
 //	    block is read back from the .csg files (raw bytes, and through the real
 //	    SegmentFileReader / TimeRangeReader).  The Coq model (ColStore.v, TsEnc.v, Tlv.v) must
 //	    produce the same buffers before and after consolidateColumnTypes, the same encoding
